@@ -427,6 +427,34 @@ impl Prop for C01 {
             if !done {
                 return;
             }
+            // (r1b) a long run of garbage before the first message (framing still undetected), lengths around the
+            // maximum message size and far beyond, from a slice and through the production reader
+            {
+                let lens: Vec<usize> = if !thorough { (65_540..=65_560).chain([70_000, 100_000, 200_000]).collect() } else { (65_500..=65_600).chain([70_000, 100_000, 131_072, 200_000, 600_000]).collect() };
+                ctx.begin_family("long_leading_garbage", &format!("both framings, G msg msg msg with G = {} lengths in {}..={} of 4 garbage kinds before the first message, from a slice and through LowMarkBufReader(512 KiB, DLT_MIN_PARSER_LOOKAHEAD_SIZE)", lens.len(), lens[0], lens[lens.len() - 1]));
+                done = true;
+                'l: for fr in &framings {
+                    for kind in [1usize, 4, 5, 6] {
+                        for &glen in &lens {
+                            for via in [Via::Slice, Via::Reader { cap: 512 * 1024, low: adlt::dlt::DLT_MIN_PARSER_LOOKAHEAD_SIZE, chunk: usize::MAX }] {
+                                if ctx.mine() {
+                                    let ms: Vec<MsgSpec> = (0..3).map(|i| shape(fr, [31u8, 0, UEH][i], [3usize, 0, 5][i], i % 3, i as u8, i)).collect();
+                                    ctx.landmark("long_leading_garbage");
+                                    run_stream_via(ctx, "long_leading_garbage", ms, vec![garbage(glen, kind), vec![], g_small(glen % G_SMALL), vec![]], via);
+                                }
+                            }
+                        }
+                        if ctx.out_of_time() {
+                            done = false;
+                            break 'l;
+                        }
+                    }
+                }
+                ctx.end_family(done);
+                if !done {
+                    return;
+                }
+            }
             // (r2) messages close to the low mark in size: every refill matters (a look-ahead below the low mark cuts them)
             let gmax2 = if !thorough { 4200 } else { 8400 };
             let chunks2: &[usize] = if !thorough { &[usize::MAX, 5000, 1000] } else { &[usize::MAX, 5000, 4096, 1000, 333] };
